@@ -41,6 +41,7 @@ PROPS["C14"] = dict(pkg="chain", level="exploration", stages=[
 
 PROPS["C13"] = dict(pkg="chain", level="exploration", stages=[
     direct("distance", "TestC13Distance"),
+    direct("unvalidated-parent", "TestC13UnvalidatedParent"),
     rapid("rapid", "TestC13", dict(shards=16, checks=400), dict(shards=16, checks=5000, timeout=7000)),
 ])
 
